@@ -114,12 +114,12 @@ fn ro_mix_case<const N: usize>() {
     }
     kani::cover!(true);
 }
-// @harness props=C10 kind=bounded bound=N=2,r=1 tier=thorough timeout=2400
+// @harness props=C10 kind=bounded bound=N=2,r=1 tier=thorough timeout=1500
 #[kani::proof]
 #[kani::stub(salsa20_8, tag_core)]
 #[kani::unwind(130)]
 fn scrypt_ro_mix_n2() { ro_mix_case::<2>() }
-// @harness props=C10 kind=bounded bound=N=4,r=1 tier=thorough timeout=3600
+// @attempt (not run: does not finish within an hour) props=C10 kind=bounded bound=N=4,r=1 tier=thorough timeout=3600
 #[kani::proof]
 #[kani::stub(salsa20_8, tag_core)]
 #[kani::unwind(130)]
